@@ -12,9 +12,42 @@ use crate::tokinizer::{Tokinizer, read_currency};
 use crate::types::{TokenType};
 use crate::token::ui_token::{UiTokenType};
 
+/* 0xAF, 0o17 or 0b11 like literals are numbers, even if the text after zero is a valid currency code (XAF, XCD) */
+fn is_radix_literal(text: &str) -> bool {
+    let mut chars = text.chars();
+    if chars.next() != Some('0') {
+        return false;
+    }
+
+    let radix = match chars.next() {
+        Some('x') | Some('X') => 16,
+        Some('o') | Some('O') => 8,
+        Some('b') | Some('B') => 2,
+        _ => return false
+    };
+
+    let mut digit_count = 0;
+    for ch in chars {
+        if !ch.is_alphanumeric() {
+            break;
+        }
+
+        if !ch.is_digit(radix) {
+            return false;
+        }
+        digit_count += 1;
+    }
+
+    digit_count > 0
+}
+
 pub fn money_regex_parser(config: &SmartCalcConfig, tokinizer: &mut Tokinizer, group_item: &[Regex]) {
     for re in group_item.iter() {
         for capture in re.captures_iter(&tokinizer.data.to_owned()) {
+            if is_radix_literal(&tokinizer.data[capture.get(0).unwrap().start()..]) {
+                continue;
+            }
+
             /* Check price value */
             let price = match capture.name("PRICE").unwrap().as_str().replace(&config.thousand_separator[..], "").replace(&config.decimal_seperator[..], ".").parse::<f64>() {
                 Ok(price) => match capture.name("NOTATION") {
